@@ -754,7 +754,7 @@ def sc_becke(m):
     m.call("generate_weights-points-copy-of-atcoords", lambda: b.generate_weights(atcoords.copy(), atcoords.copy(), atnums.copy(), select=0))
     m.same("points-is-atcoords-result", "generate_weights-points-is-atcoords", "generate_weights-points-copy-of-atcoords", "points and atcoords are one array vs copies")
     m.call("call-empty", b, m.arr("nopoints", np.zeros((0, 3))), atcoords, atnums, m.arr("zero-indices", np.zeros(natom + 1, dtype=int)), may_raise=True)
-    m.call("hirshfeld-call", HirshfeldWeights(), pts, atcoords, atnums, ind)
+    m.call("hirshfeld-call", HirshfeldWeights(), pts, atcoords, atnums, ind, may_raise=True)     # no pro-atom file for every element
 
 
 # ------------------------------------------------------------------------------------------------ scenarios: rectilinear and periodic grids
@@ -1184,7 +1184,7 @@ def _select(names):
 def run(tier, seed, *rest):
     col = Collector(RULE)
     notes = []
-    reps = 1 if tier == "quick" else 4
+    reps = 1 if tier == "quick" else 12
     _LIMIT.update(first=25.0 if tier == "quick" else 90.0, later=4.0 if tier == "quick" else 10.0, hit=False)
     for rep in range(reps):
         for name, fn, _funcs in SCENARIOS:
@@ -1204,9 +1204,9 @@ def _pick(failures, prefer=None):
 
 def replay(req):
     text = (str(req.get("obligation", "")) + " " + str(req.get("spec", ""))).lower()
-    chosen = [s for s in SCENARIOS if any(fn.lower() in text for fn in s[2]) or s[0].lower() in text]
-    if not chosen:
-        chosen = list(SCENARIOS)
+    score = {s[0]: max([len(fn) for fn in s[2] + (s[0],) if fn.lower() in text] or [0]) for s in SCENARIOS}
+    best = max(score.values())
+    chosen = [s for s in SCENARIOS if best and score[s[0]] == best] or list(SCENARIOS)      # most specific function name mentioned
     col = Collector("replay")
     notes = []
     for name, fn, _funcs in chosen:
